@@ -5,6 +5,7 @@ from common import Check, impl_run_parallel
 import gen
 import trees
 import validators as V
+from k03 import run_k03, validate_in_coq   # [agentH] K03: Model/Respond.v + Model/Wellformed.v against the real code
 
 CLS = {"GopherProtocol": "gopher", "SecureGopherProtocol": "sgopher", "GopherPlusProtocol": "gopherplus",
        "SecureGopherPlusProtocol": "sgopherplus", "HTTPProtocol": "http", "HTTPSProtocol": "https",
@@ -28,7 +29,9 @@ def malformed_stream(rng):
          b"/a.txt/\r\n", b"/a.txt/b\r\n", b"/dir1/c.txt/../c.txt\r\n", b"/\xff\xfe\r\n", b"/caf\xc3\xa9\r\n", b"/\xc2\x85\r\n",
          b"/a.txt\r", b"/a.txt", b"/a\rb\r\n", b"/maps/gophermap\r\n", b"/umn/.Links\r\n", b"/umn/.cap/three.txt\r\n",
          b"/dir1/.abstract\r\n", b"/.cache.pygopherd.dir\r\n", b"/md/new/1.msg\r\n", b"/emptydir\r\n", b"/empty.txt\r\n",
-         b"/mail.mbox|/MBOX-MESSAGE/2\r\n", b"/mail.mbox|/MBOX-MESSAGE/3\r\n", b"/mail.mbox|/MBOX-MESSAGE/18446744073709551616\r\n"]
+         b"/mail.mbox|/MBOX-MESSAGE/2\r\n", b"/mail.mbox|/MBOX-MESSAGE/3\r\n", b"/mail.mbox|/MBOX-MESSAGE/18446744073709551616\r\n",
+         b"/nope|/MBOX-MESSAGE/1\r\n", b"/nope|/MAILDIR-MESSAGE/1\r\n", b"/dir1/nope.mbox|/MBOX-MESSAGE/2\r\n", b"/dir1|/MBOX-MESSAGE/1\r\n",
+         b"/a.txt|/MAILDIR-MESSAGE/1\r\n", b"/nope?/MBOX-MESSAGE/1\r\n"]
     out = [(g, False) for g in G] + [(g, True) for g in G[::3]]
     GP = [b"\t+\r\n", b"\t!\r\n", b"\t$\r\n", b"/a.txt\t+x\r\n", b"/a.txt\t$\r\n", b"/dir1\t!\r\n", b"/nonexist\t!\r\n",
           b"/nonexist\t$\r\n", b"/nonexist\t+\r\n", b"/mail.mbox|/MBOX-MESSAGE/9999\t+\r\n", b"/mail.mbox|/MBOX-MESSAGE/9999\t!\r\n",
@@ -41,7 +44,7 @@ def malformed_stream(rng):
          b"GET /PYGOPHERD-HTTPPROTO-ICONS/ HTTP/1.0\r\n\r\n", b"GET /PYGOPHERD-HTTPPROTO-ICONS/text.gif HTTP/1.0\r\n\r\n",
          b"HEAD /PYGOPHERD-HTTPPROTO-ICONS/text.gif HTTP/1.0\r\n\r\n", b"GET /a.txt HTTP/1.0\r\nHost: x", b"GET /a.txt HTTP/1.0\r\n",
          b"GET /a.txt HTTP/1.0", b"GET /a.txt?a?b?c HTTP/1.0\r\n\r\n", b"GET ? HTTP/1.0\r\n\r\n", b"GET a.txt HTTP/1.0\r\n\r\n",
-         b"GET /mail.mbox%7C/MBOX-MESSAGE/9999 HTTP/1.0\r\n\r\n", b"GET /mail.mbox|/MBOX-MESSAGE/1 HTTP/1.0\r\n\r\n",
+         b"GET /mail.mbox%7C/MBOX-MESSAGE/9999 HTTP/1.0\r\n\r\n", b"GET /nope%7C/MBOX-MESSAGE/1 HTTP/1.0\r\n\r\n", b"GET /mail.mbox|/MBOX-MESSAGE/1 HTTP/1.0\r\n\r\n",
          b"GET /wap HTTP/1.0\r\n\r\n", b"GET /wap/nonexistent HTTP/1.0\r\n\r\n", b"GET /wap/%00 HTTP/1.0\r\n\r\n",
          b"GET /wap/mail.mbox%7C/MBOX-MESSAGE/77 HTTP/1.0\r\n\r\n", b"HEAD /wap/a.txt HTTP/1.0\r\n\r\n", b"GET /a%0d%0ab HTTP/1.0\r\n\r\n",
          b"GET /%ff%fe HTTP/1.0\r\n\r\n", b"GET /a.txt?searchrequest=%ff HTTP/1.0\r\n\r\n", b"GET /dir1/ HTTP/1.0\r\nAccept: text/vnd.wap.wml\r\nx-wap-profile: 1\r\n\r\n",
@@ -51,7 +54,7 @@ def malformed_stream(rng):
     GM = [b"gemini://\r\n", b"gemini://h\r\n", b"gemini://[::1/x\r\n", b"gemini://h]/x\r\n", b"gemini://h/%zz\r\n",
           b"gemini://h/a%0D%0A20 text/plain%0D%0Ahi\r\n", b"gemini://h/x%0Ay\r\n", b"gemini://h/GEMINI-QUERY\r\n", b"gemini://h/GEMINI-QUERY?x\r\n",
           b"gemini://h/GEMINI-QUERY/a.txt?%0D%0A20 x\r\n", b"gemini://h:port/x\r\n", b"gemini://h/a.txt?%ff\r\n", b"gemini://h/a.txt#frag\r\n",
-          b"gemini://h/mail.mbox%7C/MBOX-MESSAGE/9999\r\n", b"gemini://h/%00\r\n", b"gemini://h/\xff\r\n", b"gemini://h/a.txt", b"gemini://h//\r\n",
+          b"gemini://h/mail.mbox%7C/MBOX-MESSAGE/9999\r\n", b"gemini://h/nope%7C/MAILDIR-MESSAGE/1\r\n", b"gemini://h/%00\r\n", b"gemini://h/\xff\r\n", b"gemini://h/a.txt", b"gemini://h//\r\n",
           b"gemini://u:p@h/a.txt\r\n", b"gemini://h/empty.txt\r\n", b"gemini://h/emptydir\r\n", b"gemini://h/dir1/?q\r\n", b"gemini://h/;p?q#f\r\n"]
     out += [(g, True) for g in GM]
     SP = [b"h / 0\r\n", b"h /x%0D%0A2 text/plain%0D%0A 0\r\n", b"h /a.txt 5\r\nab", b"h /a.txt 99999999999999999999\r\n", b"h /a.txt 0007\r\nabcdefgh",
@@ -76,7 +79,7 @@ def expected_kind(tree_index, sel):
 
 def run(tier):
     chk = Check("C03", tier)
-    chk.proofs()
+    chk.proofs(extra_files=["Corr/K03.v"])   # [agentH]
     found = False
     rng = chk.rng
     tree = trees.rich_tree(rng, hostile=True, n_hostile=8)
@@ -226,6 +229,17 @@ def run(tier):
     chk.coverage["rule"] = ("a hand-written malformed stream per protocol syntax + climbers + every path of a generated tree in 9 protocol "
                             "variants + random bytes, each served alone under the default and a full handler list and again after 1-6 earlier "
                             "read-only requests; each reply validated by independent per-protocol parsers; non-trivial = not a benign existing path")
+    # ---- [agentH] correspondence K03: response bytes of every protocol class vs Model/Respond.v, and the
+    # Coq validators of Model/Wellformed.v vs validators.py on every reply of the request stream above ----
+    k_mism, k_err, k_det = run_k03(chk, tier)
+    v_items = [(CLS.get((re.search(r"\[(\w+)/", " ".join(o["log"])) or [None, None])[1]), o["out"].encode("latin-1"))
+               for ci in (0, 1) for o in res[ci]["res"]["results"]]
+    v_mism, v_err, v_det = validate_in_coq(chk, [(p, b) for p, b in v_items if p is not None])
+    chk.coverage["k03"] = dict(k_det, validators_on_request_stream=v_det)
+    if k_mism or k_err or v_mism or v_err:
+        chk.correspondence_broken("K03 (Model/Respond.v, Model/Wellformed.v vs protocols/*.py and validators.py)",
+                                  {"mismatches": k_mism + v_mism, "error": (k_err or "") + (v_err or ""), "details": chk.coverage["k03"]}, found)
+    # ---- [agentH] end ----
     chk.finish_proofs(found)
     chk.assumptions += ["wall-clock bound is runtime behaviour (measured per request, limit 5 s)"]
     return chk.finish("proof")
